@@ -28,6 +28,9 @@ pub enum Intent {
     UndoPoint,
     /// create n further tasks (C12: large snapshots)
     Bulk { n: u16 },
+    /// set (or remove) an arbitrary key to an explicit value through the TaskData API
+    /// (status, modified, dep_…, tag_… for C15/C19/C20); not tracked by the conservation oracle
+    Key { t: u8, key: String, val: Option<String>, ts: i64 },
 }
 
 #[derive(Serialize, Deserialize, Clone, Debug, PartialEq)]
@@ -44,6 +47,12 @@ pub enum Action {
     /// resolved against the chain's state and written in the documented format, with field
     /// order, whitespace, escapes and timestamp precision chosen by `fmt`
     Foreign { ops: Vec<Intent>, fmt: u64 },
+    /// rebuild the working set (C15)
+    Rebuild { renumber: bool },
+    /// expire tasks with this replica's clock reading EPOCH0+at seconds (C20)
+    Expire { at: i64 },
+    /// an editing session on task t through the high-level Task API, clock reading EPOCH0+at (C19)
+    Edit { t: u8, at: i64, muts: Vec<crate::taskmodel::Mut> },
 }
 
 #[derive(Serialize, Deserialize, Clone, Debug, PartialEq)]
@@ -133,9 +142,9 @@ struct LedgerOp {
     status: LStatus,
 }
 
-struct World {
-    sc: Scenario,
-    stores: Vec<MemStore>,
+pub(crate) struct World {
+    pub(crate) sc: Scenario,
+    pub(crate) stores: Vec<MemStore>,
     server: Rc<RefCell<ServerWorld>>,
     pc: Vec<usize>,
     ledger: Vec<Vec<LedgerOp>>,
@@ -144,24 +153,26 @@ struct World {
     log: Vec<String>,
     want_log: bool,
     /// global simulated time (ns since epoch), advanced by the executor
-    now_ns: i64,
+    pub(crate) now_ns: i64,
     steps: u64,
     sched_hash: Fnv,
     /// distinguishes values of different rounds / phases (action indices restart there)
     epoch: usize,
+    /// tasks purged by some replica's expire_tasks
+    pub expired: BTreeSet<Uuid>,
 }
 
 impl World {
-    fn violation(&mut self, oracle: &str, sig: impl Into<String>, detail: String) {
+    pub(crate) fn violation(&mut self, oracle: &str, sig: impl Into<String>, detail: String) {
         if self.want_log {
             self.log.push(format!("VIOLATION {oracle}: {detail}"));
         }
         self.violations.push(Violation { oracle: oracle.into(), sig: sig.into(), detail });
     }
-    fn probe(&mut self, k: &str) {
+    pub(crate) fn probe(&mut self, k: &str) {
         *self.probes.entry(k.to_string()).or_insert(0) += 1;
     }
-    fn log(&mut self, s: impl FnOnce() -> String) {
+    pub(crate) fn log(&mut self, s: impl FnOnce() -> String) {
         if self.want_log {
             let l = s();
             self.log.push(l);
@@ -180,7 +191,7 @@ fn op_to_sop(op: &Operation) -> Option<SOp> {
     }
 }
 
-fn fired_total() -> u64 {
+pub(crate) fn fired_total() -> u64 {
     exec::with_ctx(|c| c.fired.values().sum::<u64>()).unwrap_or(0)
 }
 
@@ -210,7 +221,7 @@ async fn build_ops(n: usize, a: usize, replica: &mut Replica<SimStorage>, intent
                 }
                 continue;
             }
-            Intent::Create { t } | Intent::Delete { t } | Intent::Set { t, .. } | Intent::Remove { t, .. } => *t,
+            Intent::Create { t } | Intent::Delete { t } | Intent::Set { t, .. } | Intent::Remove { t, .. } | Intent::Key { t, .. } => *t,
         };
         if !view.contains_key(&t) {
             match replica.get_task_data(task_uuid(t)).await {
@@ -242,6 +253,12 @@ async fn build_ops(n: usize, a: usize, replica: &mut Replica<SimStorage>, intent
                 if let Some(td) = slot.as_mut() {
                     interpose::set_now_ns((EPOCH0 + ts) * 1_000_000_000);
                     td.update(prop_name_s(*p, style), None, &mut ops);
+                }
+            }
+            Intent::Key { key, val, ts, .. } => {
+                if let Some(td) = slot.as_mut() {
+                    interpose::set_now_ns((EPOCH0 + ts) * 1_000_000_000);
+                    td.update(key.clone(), val.clone(), &mut ops);
                 }
             }
             Intent::UndoPoint | Intent::Bulk { .. } => unreachable!(),
@@ -280,7 +297,7 @@ fn raw_to_ops(raw: &[RawOp]) -> Operations {
         .collect()
 }
 
-async fn commit_ops(n: usize, a: usize, w: &Rc<RefCell<World>>, replica: &mut Replica<SimStorage>, ops: Operations, f0: u64) {
+pub(crate) async fn commit_ops(n: usize, a: usize, w: &Rc<RefCell<World>>, replica: &mut Replica<SimStorage>, ops: Operations, f0: u64) {
     if ops.is_empty() {
         return;
     }
@@ -314,6 +331,9 @@ async fn commit_ops(n: usize, a: usize, w: &Rc<RefCell<World>>, replica: &mut Re
             }
         }
     }
+    if applied {
+        ws_after_commit(&mut wb, n, a, &before, &after);
+    }
     let status = if applied { LStatus::Committed } else { LStatus::Failed };
     for s in sops {
         wb.ledger[n].push(LedgerOp { action: a, sop: s, status: status.clone() });
@@ -334,10 +354,15 @@ async fn do_sync(n: usize, a: usize, w: &Rc<RefCell<World>>, replica: &mut Repli
         let st = simstorage::read_mem(&w.borrow().stores[n]);
         st.tasks.is_empty() && st.unsynced.is_empty() && st.base_version.is_nil() && st.working_set.iter().all(|x| x.is_none())
     };
+    let ws_before = simstorage::read_mem(&w.borrow().stores[n]);
     let r = replica.sync(server, avoid).await;
     let faulted = fired_total() > f0;
     let mut wb = w.borrow_mut();
     wb.server.borrow_mut().sync_finished(n, r.is_ok());
+    if r.is_ok() {
+        let after = simstorage::read_mem(&wb.stores[n]);
+        ws_after_rebuild(&mut wb, n, &format!("action {a} sync"), false, &ws_before, &after);
+    }
     // probes from the server's event log for this sync
     {
         let sw = wb.server.clone();
@@ -458,6 +483,7 @@ async fn do_undo(n: usize, a: usize, w: &Rc<RefCell<World>>, replica: &mut Repli
                 }
             }
             wb.probe("undo.ok");
+            ws_after_rebuild(&mut wb, n, &format!("action {a} undo"), false, &before, &after);
         }
         Ok(false) => {
             if *after != *before {
@@ -574,7 +600,7 @@ fn do_foreign(n: usize, a: usize, w: &Rc<RefCell<World>>, intents: &[Intent], fm
                     parts.push(format!("{{\"Update\":{}{{{}}}{}}}", ws(&mut rng), fields.join(&format!(",{}", ws(&mut rng))), ws(&mut rng)));
                 }
             }
-            Intent::UndoPoint | Intent::Bulk { .. } => {}
+            Intent::UndoPoint | Intent::Bulk { .. } | Intent::Key { .. } => {}
         }
     }
     if parts.is_empty() {
@@ -590,6 +616,236 @@ fn do_foreign(n: usize, a: usize, w: &Rc<RefCell<World>>, intents: &[Intent], fm
     }
     wb.probe("foreign.added");
     wb.log(|| format!("n{n} a{a} foreign version {:?}: {}", r, doc.replace('\n', "\\n")));
+}
+
+// ---- working set (C15) -------------------------------------------------------------------------
+
+fn ws_map(ws: &[Option<Uuid>]) -> BTreeMap<usize, Uuid> {
+    ws.iter().enumerate().filter_map(|(i, u)| u.map(|u| (i, u))).collect()
+}
+
+fn is_pr(p: Option<&model::Props>) -> bool {
+    p.and_then(|p| p.get("status")).map(|s| s == "pending" || s == "recurring").unwrap_or(false)
+}
+
+/// "a task that becomes pending in a commit is added at the end immediately without disturbing
+/// existing numbers"
+fn ws_after_commit(wb: &mut World, n: usize, a: usize, before: &StoreState, after: &StoreState) {
+    let b = ws_map(&before.working_set);
+    let aft = ws_map(&after.working_set);
+    if after.working_set.first().map(|x| x.is_some()).unwrap_or(false) {
+        wb.violation("ws.commit", "index0", format!("node {n} action {a}: position 0 of the working set is occupied"));
+    }
+    for (i, u) in &b {
+        if aft.get(i) != Some(u) {
+            wb.violation("ws.commit", "moved", format!("node {n} action {a}: committing disturbed working-set entry {i} ({})", model::short(u)));
+            return;
+        }
+    }
+    let maxb = b.keys().max().copied().unwrap_or(0);
+    let members_b: BTreeSet<Uuid> = b.values().copied().collect();
+    let mut seen = BTreeSet::new();
+    for (i, u) in &aft {
+        if !seen.insert(*u) {
+            wb.violation("ws.commit", "duplicate", format!("node {n} action {a}: task {} is in the working set twice", model::short(u)));
+        }
+        if !b.contains_key(i) && *i <= maxb {
+            wb.violation("ws.commit", "not-at-end", format!("node {n} action {a}: newcomer {} was not added after the numbers in use ({} <= {})", model::short(u), i, maxb));
+        }
+    }
+    // every task that became pending must now be present
+    for (u, p) in &after.tasks {
+        if is_pr(Some(p)) && !is_pr(before.tasks.get(u)) && !seen.contains(u) {
+            wb.violation("ws.commit", "missing", format!("node {n} action {a}: task {} became pending in this commit but was not added to the working set", model::short(u)));
+        }
+    }
+    // newcomers must be tasks whose status this commit touched
+    for (i, u) in &aft {
+        if !b.contains_key(i) && !members_b.contains(u) {
+            let touched = after.unsynced[before.unsynced.len().min(after.unsynced.len())..].iter().any(|o| matches!(o, Operation::Update { uuid, property, .. } if uuid == u && property == "status"));
+            if !touched {
+                wb.violation("ws.commit", "spurious", format!("node {n} action {a}: task {} was added to the working set although its status was not changed", model::short(u)));
+            }
+        }
+    }
+    if aft.len() > b.len() {
+        wb.probe("ws.added_on_commit");
+    }
+}
+
+/// After a rebuild (explicit, or implied by sync / undo).
+fn ws_after_rebuild(wb: &mut World, n: usize, why: &str, renumber: bool, before: &StoreState, after: &StoreState) {
+    let b = ws_map(&before.working_set);
+    let aft = ws_map(&after.working_set);
+    if after.working_set.first().map(|x| x.is_some()).unwrap_or(false) {
+        wb.violation("ws.rebuild", "index0", format!("node {n} {why}: position 0 of the working set is occupied"));
+    }
+    let want: BTreeSet<Uuid> = after.tasks.iter().filter(|(_, p)| is_pr(Some(p))).map(|(u, _)| *u).collect();
+    let mut got = BTreeSet::new();
+    for u in aft.values() {
+        if !got.insert(*u) {
+            wb.violation("ws.rebuild", "duplicate", format!("node {n} {why}: task {} is in the working set twice", model::short(u)));
+        }
+    }
+    if got != want {
+        let missing: Vec<String> = want.difference(&got).map(model::short).collect();
+        let extra: Vec<String> = got.difference(&want).map(model::short).collect();
+        wb.violation("ws.rebuild", "membership", format!("node {n} {why}: working set is not exactly the pending/recurring tasks (missing {missing:?}, extra {extra:?})"));
+        return;
+    }
+    let old_index: BTreeMap<Uuid, usize> = b.iter().map(|(i, u)| (*u, *i)).collect();
+    let survivors: Vec<(usize, Uuid)> = aft.iter().filter(|(_, u)| old_index.contains_key(u)).map(|(i, u)| (*i, *u)).collect();
+    if !renumber {
+        for (i, u) in &survivors {
+            if old_index[u] != *i {
+                wb.violation(
+                    "ws.rebuild",
+                    "renumbered",
+                    format!("node {n} {why}: without renumbering task {} moved from {} to {} (before {:?}, after {:?})", model::short(u), old_index[u], i, fmt_ws(&before.working_set), fmt_ws(&after.working_set)),
+                );
+                return;
+            }
+        }
+        let max_surv = survivors.iter().map(|x| x.0).max().unwrap_or(0);
+        for (i, u) in &aft {
+            if !old_index.contains_key(u) && *i <= max_surv {
+                wb.violation("ws.rebuild", "newcomer-position", format!("node {n} {why}: newcomer {} got number {i}, not after the numbers in use (max {max_surv})", model::short(u)));
+                return;
+            }
+        }
+    } else {
+        let idx: Vec<usize> = aft.keys().copied().collect();
+        if idx != (1..=aft.len()).collect::<Vec<_>>() {
+            wb.violation("ws.rebuild", "gaps", format!("node {n} {why}: after renumbering the tasks do not occupy 1..{}: before {:?}, after {:?}", aft.len(), fmt_ws(&before.working_set), fmt_ws(&after.working_set)));
+            return;
+        }
+        let mut last = 0usize;
+        for (_, u) in &survivors {
+            if old_index[u] < last {
+                wb.violation("ws.rebuild", "order", format!("node {n} {why}: renumbering changed the relative order of tasks (before {:?}, after {:?})", fmt_ws(&before.working_set), fmt_ws(&after.working_set)));
+                return;
+            }
+            last = old_index[u];
+        }
+    }
+    wb.probe("ws.rebuild_checked");
+    if b.values().any(|u| !after.tasks.contains_key(u)) {
+        wb.probe("ws.rebuild_with_dangling_entry");
+    }
+    if (1..before.working_set.len()).any(|i| before.working_set[i].is_none()) {
+        wb.probe("ws.rebuild_with_gap");
+    }
+}
+
+fn fmt_ws(ws: &[Option<Uuid>]) -> Vec<String> {
+    ws.iter().map(|u| u.map(|u| model::short(&u)).unwrap_or_else(|| "_".into())).collect()
+}
+
+async fn do_rebuild(n: usize, a: usize, w: &Rc<RefCell<World>>, replica: &mut Replica<SimStorage>, renumber: bool) {
+    let f0 = fired_total();
+    let before = simstorage::read_mem(&w.borrow().stores[n]);
+    let r = replica.rebuild_working_set(renumber).await;
+    let faulted = fired_total() > f0;
+    let after = simstorage::read_mem(&w.borrow().stores[n]);
+    let mut wb = w.borrow_mut();
+    match r {
+        Ok(()) => ws_after_rebuild(&mut wb, n, &format!("action {a} rebuild(renumber={renumber})"), renumber, &before, &after),
+        Err(e) => {
+            if !faulted {
+                wb.violation("ws.rebuild", "error", format!("node {n} action {a}: rebuild failed without an injected fault: {e}"));
+            }
+        }
+    }
+    wb.log(|| format!("n{n} a{a} rebuild renumber={renumber}: {:?} -> {:?}", fmt_ws(&before.working_set), fmt_ws(&after.working_set)));
+}
+
+// ---- expiration (C20) --------------------------------------------------------------------------
+
+fn parse_i64_like_rust(s: &str) -> Option<i64> {
+    let b = s.as_bytes();
+    let (neg, digits) = match b.first() {
+        Some(b'-') => (true, &s[1..]),
+        Some(b'+') => (false, &s[1..]),
+        _ => (false, s),
+    };
+    if digits.is_empty() || !digits.bytes().all(|c| c.is_ascii_digit()) {
+        return None;
+    }
+    let mut v: i128 = 0;
+    for c in digits.bytes() {
+        v = v * 10 + (c - b'0') as i128;
+        if v > (i64::MAX as i128) + 1 {
+            return None;
+        }
+    }
+    let v = if neg { -v } else { v };
+    if v < i64::MIN as i128 || v > i64::MAX as i128 {
+        None
+    } else {
+        Some(v as i64)
+    }
+}
+
+const EXPIRY_SECS: i64 = 180 * 86400;
+
+async fn do_expire(n: usize, a: usize, w: &Rc<RefCell<World>>, replica: &mut Replica<SimStorage>, at: i64) {
+    let f0 = fired_total();
+    let before = simstorage::read_mem(&w.borrow().stores[n]);
+    let now = EPOCH0 + at;
+    interpose::set_now_ns(now * 1_000_000_000);
+    let r = replica.expire_tasks().await;
+    interpose::set_now_ns(w.borrow().now_ns);
+    let faulted = fired_total() > f0;
+    let after = simstorage::read_mem(&w.borrow().stores[n]);
+    let mut wb = w.borrow_mut();
+    // exactly the tasks with status deleted and a readable modification time more than 180 days ago
+    let mut expect_gone: BTreeSet<Uuid> = BTreeSet::new();
+    for (u, p) in &before.tasks {
+        if p.get("status").map(|s| s == "deleted").unwrap_or(false) {
+            if let Some(m) = p.get("modified").and_then(|m| parse_i64_like_rust(m)) {
+                // representable as a date (chrono's range) and strictly older than 180 days
+                if (-8_334_601_228_800..=8_210_266_876_799).contains(&m) && m < now - EXPIRY_SECS {
+                    expect_gone.insert(*u);
+                }
+            }
+        }
+    }
+    match &r {
+        Ok(()) => {
+            let mut exp = before.tasks.clone();
+            for u in &expect_gone {
+                exp.remove(u);
+            }
+            if exp != after.tasks {
+                let wrongly_gone: Vec<String> = before.tasks.keys().filter(|u| !after.tasks.contains_key(u) && !expect_gone.contains(u)).map(|u| format!("{} {:?}", model::short(u), before.tasks[u])).collect();
+                let wrongly_kept: Vec<String> = expect_gone.iter().filter(|u| after.tasks.contains_key(u)).map(|u| format!("{} {:?}", model::short(u), before.tasks[u])).collect();
+                wb.violation(
+                    "expire",
+                    if !wrongly_gone.is_empty() { "purged-too-much" } else { "kept-expired" },
+                    format!("node {n} action {a}: expire_tasks at now={now}: wrongly purged {wrongly_gone:?}, wrongly kept {wrongly_kept:?}"),
+                );
+            }
+            // recorded as ordinary deletions
+            let new_ops = &after.unsynced[before.unsynced.len().min(after.unsynced.len())..];
+            let deleted: BTreeSet<Uuid> = new_ops.iter().filter_map(|o| if let Operation::Delete { uuid, .. } = o { Some(*uuid) } else { None }).collect();
+            if new_ops.iter().any(|o| !matches!(o, Operation::Delete { .. })) || deleted != expect_gone && exp == after.tasks {
+                wb.violation("expire", "operations", format!("node {n} action {a}: the purge was not recorded as exactly one Delete per expired task: {new_ops:?}"));
+            }
+            for u in &expect_gone {
+                wb.expired.insert(*u);
+                wb.ledger[n].push(LedgerOp { action: a, sop: SOp::Delete { uuid: *u }, status: LStatus::Committed });
+            }
+            if !expect_gone.is_empty() {
+                wb.probe("expire.purged");
+            }
+        }
+        Err(e) => {
+            if !faulted {
+                wb.violation("expire", "error", format!("node {n} action {a}: expire_tasks failed: {e}"));
+            }
+        }
+    }
+    wb.log(|| format!("n{n} a{a} expire at={at} gone={:?} -> {:?}", expect_gone.iter().map(model::short).collect::<Vec<_>>(), r.as_ref().map_err(|e| e.to_string())));
 }
 
 /// Replica invariant (docs/src/sync-model.md): tasks == M-apply(state_at(base_version), unsynced ops).
@@ -653,6 +909,9 @@ fn make_node(n: usize, w: Rc<RefCell<World>>) -> NodeFut {
                     commit_ops(n, a, &w, &mut replica, raw_to_ops(ops), f0).await
                 }
                 Action::Foreign { ops, fmt } => do_foreign(n, a, &w, ops, *fmt),
+                Action::Rebuild { renumber } => do_rebuild(n, a, &w, &mut replica, *renumber).await,
+                Action::Expire { at } => do_expire(n, a, &w, &mut replica, *at).await,
+                Action::Edit { t, at, muts } => crate::taskmodel::do_edit(n, a, &w, &mut replica, *t, *at, muts).await,
             }
             post_check(n, &w, &format!("action {a}"));
         }
@@ -696,6 +955,7 @@ fn new_world(sc: &Scenario, want_log: bool) -> W {
         steps: 0,
         sched_hash: Fnv::default(),
         epoch: 0,
+        expired: BTreeSet::new(),
         sc: sc.clone(),
     }))
 }
@@ -717,6 +977,7 @@ fn fork(w: &W) -> W {
         steps: 0,
         sched_hash: Fnv::default(),
         epoch: wb.epoch,
+        expired: wb.expired.clone(),
         sc: wb.sc.clone(),
     }))
 }
@@ -976,8 +1237,20 @@ pub fn run(scv: &Value, want_log: bool) -> RunResult {
     }
     if !sc.no_final && !has_violations(&w) && final_phase(&w) {
         history_oracles(&w);
+        if sc.check == "C20" {
+            // a purged task is gone everywhere; concurrent edits elsewhere must not bring it back
+            let mut wb = w.borrow_mut();
+            let st = wb.server.borrow().chain.state_latest().unwrap_or_default();
+            let back: Vec<String> = wb.expired.iter().filter(|u| st.contains_key(u)).map(model::short).collect();
+            if !back.is_empty() {
+                wb.violation("expire", "resurrected", format!("tasks {back:?} were purged by expiration but exist again after synchronization"));
+            }
+        }
     }
     let probe: &[&str] = match sc.check.as_str() {
+        "C15" => &["ws.rebuild_checked"],
+        "C19" => &["edit.sessions"],
+        "C20" => &["expire.purged"],
         "C12" => &["srv.add_snapshot"],
         "C14" => &["foreign.added"],
         "C02" => &["srv.add_version.rejected"],
@@ -1376,6 +1649,249 @@ pub fn gen_c14(seed: u64, i: u64, _thorough: bool) -> Value {
     serde_json::to_value(sc).unwrap()
 }
 
+const STATUSES: &[&str] = &["pending", "completed", "deleted", "recurring", "pending", "weird"];
+
+fn gen_status_intents(rng: &mut Rng, g: &mut GenCfg, max: usize) -> Vec<Intent> {
+    let k = 1 + rng.usize_below(max);
+    let mut v = Vec::new();
+    for _ in 0..k {
+        let t = rng.below(g.tasks as u64) as u8;
+        match rng.below(20) {
+            0..=3 => {
+                v.push(Intent::Create { t });
+                if rng.chance(3, 4) {
+                    v.push(Intent::Key { t, key: "status".into(), val: Some(rng.pick(STATUSES).to_string()), ts: gen_ts(rng, g) });
+                }
+            }
+            4..=12 => v.push(Intent::Key { t, key: "status".into(), val: if rng.chance(1, 12) { None } else { Some(rng.pick(STATUSES).to_string()) }, ts: gen_ts(rng, g) }),
+            13..=15 => v.push(Intent::Delete { t }),
+            16 => v.push(Intent::UndoPoint),
+            _ => v.push(Intent::Set { t, p: 0, ts: gen_ts(rng, g), big: false }),
+        }
+    }
+    v
+}
+
+pub fn gen_c15(seed: u64, i: u64, _thorough: bool) -> Value {
+    let s = mix(seed, "C15", i);
+    let mut rng = Rng::new(s);
+    let nodes = *rng.pick(&[1usize, 1, 2, 2, 3]);
+    let mut g = GenCfg { tasks: 2 + rng.below(5) as u8, props: 1, ts_policy: rng.below(4) as u8, ts_counter: 0 };
+    let mut scripts = Vec::new();
+    for _ in 0..nodes {
+        let len = 3 + rng.usize_below(14);
+        let mut sc = Vec::new();
+        for _ in 0..len {
+            match rng.below(20) {
+                0..=3 => sc.push(Action::Sync { avoid: true }),
+                4..=8 => sc.push(Action::Rebuild { renumber: rng.chance(1, 2) }),
+                9 => sc.push(Action::Undo),
+                _ => sc.push(Action::Commit { ops: gen_status_intents(&mut rng, &mut g, 4) }),
+            }
+        }
+        scripts.push(sc);
+    }
+    let sc = Scenario {
+        check: "C15".into(),
+        seed: s,
+        nodes,
+        scripts,
+        sched_seed: rng.next_u64(),
+        atomic_sync: true,
+        bias: 0,
+        faults: vec![],
+        urgency_mode: 0,
+        srv_seed: rng.next_u64(),
+        rounds: vec![],
+        under_test: None,
+        no_final: false,
+        style: 0,
+        late: 0,
+    };
+    serde_json::to_value(sc).unwrap()
+}
+
+const DAY: i64 = 86400;
+
+pub fn gen_c20(seed: u64, i: u64, _thorough: bool) -> Value {
+    let s = mix(seed, "C20", i);
+    let mut rng = Rng::new(s);
+    let nodes = *rng.pick(&[1usize, 2, 2, 3]);
+    let tasks = 2 + rng.below(5) as u8;
+    let mut g = GenCfg { tasks, props: 2, ts_policy: rng.below(4) as u8, ts_counter: 0 };
+    // the instants at which replicas will expire
+    let at0 = rng.range(-30, 400) * DAY + rng.range(0, DAY - 1);
+    let modified_val = |rng: &mut Rng, at: i64| -> Option<String> {
+        let now = crate::interpose::EPOCH0 + at;
+        match rng.below(16) {
+            0 => None,
+            1 => Some("abc".into()),
+            2 => Some("".into()),
+            3 => Some("99999999999999999".into()),
+            4 => Some("9223372036854775808".into()),
+            5 => Some(format!(" {}", now - 200 * DAY)),
+            6 => Some(format!("{}.0", now - 200 * DAY)),
+            7 => Some((now + rng.range(1, 1000 * DAY)).to_string()),
+            8 => Some((now - 180 * DAY).to_string()),
+            9 => Some((now - 180 * DAY - 1).to_string()),
+            10 => Some((now - 180 * DAY + 1).to_string()),
+            11 => Some((now - rng.range(181, 4000) * DAY).to_string()),
+            12 => Some(format!("-{}", rng.range(1, 100000))),
+            13 => Some(format!("+{}", now - 300 * DAY)),
+            _ => Some((now - rng.range(0, 179) * DAY).to_string()),
+        }
+    };
+    let mut first = Vec::new();
+    for t in 0..tasks {
+        first.push(Intent::Create { t });
+        first.push(Intent::Key { t, key: "status".into(), val: Some(rng.pick(&["deleted", "deleted", "deleted", "pending", "completed", "recurring", "Deleted"]).to_string()), ts: 0 });
+        if let Some(m) = modified_val(&mut rng, at0) {
+            first.push(Intent::Key { t, key: "modified".into(), val: Some(m), ts: 0 });
+        }
+    }
+    let mut scripts = Vec::new();
+    for n in 0..nodes {
+        let mut sc = Vec::new();
+        if n == 0 {
+            sc.push(Action::Commit { ops: first.clone() });
+        }
+        sc.push(Action::Sync { avoid: true });
+        let len = 1 + rng.usize_below(8);
+        for _ in 0..len {
+            match rng.below(10) {
+                0..=2 => sc.push(Action::Sync { avoid: true }),
+                3..=5 => sc.push(Action::Expire { at: at0 + *rng.pick(&[0i64, 0, 0, 1, -1, DAY, -DAY, 200 * DAY]) }),
+                _ => {
+                    // concurrent edits of existing tasks (no creation, no outright deletion)
+                    let k = 1 + rng.usize_below(3);
+                    let mut ops = Vec::new();
+                    for _ in 0..k {
+                        let t = rng.below(tasks as u64) as u8;
+                        match rng.below(4) {
+                            0 => ops.push(Intent::Key { t, key: "status".into(), val: Some(rng.pick(&["deleted", "pending", "completed"]).to_string()), ts: gen_ts(&mut rng, &mut g) }),
+                            1 => ops.push(Intent::Key { t, key: "modified".into(), val: modified_val(&mut rng, at0), ts: gen_ts(&mut rng, &mut g) }),
+                            _ => ops.push(Intent::Set { t, p: rng.below(2) as u8, ts: gen_ts(&mut rng, &mut g), big: false }),
+                        }
+                    }
+                    sc.push(Action::Commit { ops });
+                }
+            }
+        }
+        scripts.push(sc);
+    }
+    let sc = Scenario {
+        check: "C20".into(),
+        seed: s,
+        nodes,
+        scripts,
+        sched_seed: rng.next_u64(),
+        atomic_sync: rng.chance(1, 2),
+        bias: 0,
+        faults: vec![],
+        urgency_mode: 0,
+        srv_seed: rng.next_u64(),
+        rounds: vec![],
+        under_test: None,
+        no_final: false,
+        style: 0,
+        late: 0,
+    };
+    serde_json::to_value(sc).unwrap()
+}
+
+pub fn gen_c19(seed: u64, i: u64, _thorough: bool) -> Value {
+    use crate::taskmodel::Mut;
+    let s = mix(seed, "C19", i);
+    let mut rng = Rng::new(s);
+    let nodes = *rng.pick(&[1usize, 1, 2]);
+    let tasks = 1 + rng.below(4) as u8;
+    let mut g = GenCfg { tasks, props: 2, ts_policy: 0, ts_counter: 0 };
+    let clock_policy = rng.below(4);
+    let mut at = rng.range(-400, 400) * DAY;
+    const TAGS: &[&str] = &["next", "work", "a:b", "+x", "1st", "PENDING", "WAITING", "FOO", "üni", "x y", "", "ok-1", "Home"];
+    const UDAS: &[&str] = &["githubid", "ns.key", "status", "tag_x", "annotation_1", "dep_x", "modified", "estimate", "end"];
+    let mut scripts = Vec::new();
+    for _ in 0..nodes {
+        let len = 2 + rng.usize_below(10);
+        let mut sc = Vec::new();
+        for _ in 0..len {
+            match rng.below(20) {
+                0..=2 => sc.push(Action::Sync { avoid: true }),
+                3 => sc.push(Action::Rebuild { renumber: rng.chance(1, 2) }),
+                4..=5 => {
+                    let t = rng.below(tasks as u64) as u8;
+                    let d = rng.below(tasks as u64) as u8;
+                    let ops = vec![
+                        Intent::Create { t },
+                        Intent::Key { t, key: "status".into(), val: Some(rng.pick(&["pending", "completed", "deleted"]).to_string()), ts: gen_ts(&mut rng, &mut g) },
+                        Intent::Key { t, key: format!("dep_{}", task_uuid(d)), val: if rng.chance(2, 3) { Some(String::new()) } else { None }, ts: gen_ts(&mut rng, &mut g) },
+                    ];
+                    sc.push(Action::Commit { ops });
+                }
+                _ => {
+                    at = match clock_policy {
+                        0 => at + rng.range(1, 3 * DAY),
+                        1 => at - rng.range(1, 3 * DAY),
+                        2 => at,
+                        _ => rng.range(-4000, 4000) * DAY,
+                    };
+                    let k = 1 + rng.usize_below(8);
+                    let mut muts = Vec::new();
+                    for _ in 0..k {
+                        let rel = |rng: &mut Rng| at + rng.range(-3, 3) * DAY + rng.range(-2, 2);
+                        muts.push(match rng.below(24) {
+                            0..=3 => Mut::SetStatus(rng.below(4) as u8),
+                            4 => Mut::SetDescription(format!("d{}", rng.below(100))),
+                            5 => Mut::SetPriority(rng.pick(&["H", "M", "L", ""]).to_string()),
+                            6 => Mut::SetEntry(if rng.chance(1, 5) { None } else { Some(rel(&mut rng)) }),
+                            7..=8 => Mut::SetWait(if rng.chance(1, 4) { None } else { Some(rel(&mut rng)) }),
+                            9 => Mut::SetDue(if rng.chance(1, 4) { None } else { Some(rel(&mut rng)) }),
+                            10..=11 => Mut::SetModified(rel(&mut rng)),
+                            12 => Mut::Start,
+                            13 => Mut::Stop,
+                            14 => Mut::Done,
+                            15..=16 => Mut::AddTag(rng.pick(TAGS).to_string()),
+                            17 => Mut::RemoveTag(rng.pick(TAGS).to_string()),
+                            18 => Mut::AddAnnotation(rel(&mut rng), format!("note{}", rng.below(100))),
+                            19 => Mut::RemoveAnnotation(rel(&mut rng)),
+                            20 => Mut::SetUda(rng.pick(UDAS).to_string(), format!("u{}", rng.below(100))),
+                            21 => Mut::RemoveUda(rng.pick(UDAS).to_string()),
+                            22 => {
+                                if rng.chance(2, 3) {
+                                    Mut::AddDep(rng.below(tasks as u64) as u8)
+                                } else {
+                                    Mut::RemoveDep(rng.below(tasks as u64) as u8)
+                                }
+                            }
+                            _ => Mut::SetValue(rng.pick(&["modified", "end", "custom", "status", "start"]).to_string(), if rng.chance(1, 3) { None } else { Some(format!("{}", crate::interpose::EPOCH0 + rel(&mut rng))) }),
+                        });
+                    }
+                    sc.push(Action::Edit { t: rng.below(tasks as u64) as u8, at, muts });
+                }
+            }
+        }
+        scripts.push(sc);
+    }
+    let sc = Scenario {
+        check: "C19".into(),
+        seed: s,
+        nodes,
+        scripts,
+        sched_seed: rng.next_u64(),
+        atomic_sync: true,
+        bias: 0,
+        faults: vec![],
+        urgency_mode: 0,
+        srv_seed: rng.next_u64(),
+        rounds: vec![],
+        under_test: None,
+        no_final: false,
+        style: 0,
+        late: 0,
+    };
+    serde_json::to_value(sc).unwrap()
+}
+
 // ---- C03: documented winners, independent of sync order -------------------------------------
 
 fn permutations(n: usize) -> Vec<Vec<usize>> {
@@ -1743,6 +2259,9 @@ fn conservation(wb: &mut World) {
         let mut last_pos: Option<(usize, usize)> = None;
         for e in l {
             let SOp::Update { uuid, property, value: Some(val), ts } = &e.sop else { continue };
+            if !tracked_value(val) {
+                continue;
+            }
             known_values.insert(val.clone());
             let occ = by_value.get(val).cloned().unwrap_or_default();
             match e.status {
@@ -1790,10 +2309,17 @@ fn conservation(wb: &mut World) {
         }
     }
     for (val, occ) in &by_value {
-        if !known_values.contains(val) && occ.iter().all(|o| o.0 != usize::MAX) {
+        if tracked_value(val) && !known_values.contains(val) && occ.iter().all(|o| o.0 != usize::MAX) {
             wb.violation("conservation", "unknown-value", format!("the server holds an update {} nobody committed", trunc(val)));
         }
     }
+}
+
+/// values generated as unique markers ("v<node>.<action>.<index>…"); only these take part in
+/// the conservation oracle
+fn tracked_value(v: &str) -> bool {
+    let b = v.as_bytes();
+    b.len() >= 4 && b[0] == b'v' && b[1].is_ascii_digit() && v.contains('.')
 }
 
 fn trunc(s: &str) -> String {
@@ -2046,6 +2572,19 @@ pub fn shrink(scv: &Value) -> Vec<Value> {
         c.late = 0;
         out.push(c);
     }
+    for n in 0..sc.nodes {
+        for a in 0..sc.scripts[n].len() {
+            if let Action::Edit { t, at, muts } = &sc.scripts[n][a] {
+                for k in 0..muts.len() {
+                    let mut c = sc.clone();
+                    let mut o = muts.clone();
+                    o.remove(k);
+                    c.scripts[n][a] = Action::Edit { t: *t, at: *at, muts: o };
+                    out.push(c);
+                }
+            }
+        }
+    }
     if let Some((v, Action::CommitRaw { ops })) = &sc.under_test {
         for k in 0..ops.len() {
             let mut c = sc.clone();
@@ -2100,6 +2639,45 @@ const STUB_A: &[&str] = &["server = SimServer (M-chain reference model behind th
 
 pub fn checks() -> Vec<CheckDef> {
     vec![
+        CheckDef {
+            id: "C15",
+            level: "exploration",
+            runs_quick: 200_000,
+            runs_thorough: 12_000_000,
+            rule: "seeded scripts on 1-3 replicas: commits that create tasks and change status (pending, completed, deleted, recurring, unknown, removed), outright deletes, syncs that bring other replicas' status changes and deletions, undo, and explicit rebuilds with and without renumbering in any sequence (so that prior working sets have gaps and entries whose task was completed, deleted or removed by sync). After every rebuild (explicit, or implied by sync/undo): index 0 empty, members exactly the pending/recurring tasks each once, without renumbering survivors keep their number and newcomers follow all numbers in use, with renumbering 1..n without gaps in previous relative order; after every commit: existing numbers undisturbed, tasks that became pending appended. Non-trivial: at least one rebuild was checked; distinct = distinct trace hash.",
+            gen: gen_c15,
+            run,
+            shrink,
+            real: REAL_A,
+            stub: STUB_A,
+            assumptions: &["in-memory storage in this check; SqliteStorage working-set behaviour is compared call by call in C16"],
+        },
+        CheckDef {
+            id: "C19",
+            level: "exploration",
+            runs_quick: 150_000,
+            runs_thorough: 8_000_000,
+            rule: "seeded editing sessions through the high-level Task API (status, description, priority, entry/wait/due/modified, start/stop/done, tags incl. invalid and synthetic names, annotations, user-defined attributes incl. reserved names, dependencies, raw set_value) under a simulated clock that runs forwards, backwards, stands still or jumps years between sessions, interleaved with syncs and other replicas' changes. After each session: the stored task equals the object the caller held and an independent task model (M-task); every recorded old value is the value the property had; tags, annotations, dependencies, UDAs, synthetic tags and dependency_map(true) read back equal what the model derives from the stored data. Non-trivial: at least one session committed; distinct = distinct trace hash.",
+            gen: gen_c19,
+            run,
+            shrink,
+            real: REAL_A,
+            stub: STUB_A,
+            assumptions: &["the contribution of simulation here is the clock seam; the rest is a model check of mutator sequences", "the dependency map is compared after a forced recomputation (its caching is documented)"],
+        },
+        CheckDef {
+            id: "C20",
+            level: "exploration",
+            runs_quick: 200_000,
+            runs_thorough: 12_000_000,
+            rule: "task sets over every status and modification time (exactly 180 days, one second either side, future, missing, non-numeric, signed, out of range), replicas calling expire_tasks with their clock pinned to chosen instants (jumps of days to months), concurrent edits of the same tasks on other replicas, all sync orders. Oracle: exactly the tasks with status deleted and a readable modification time more than 180 days before the caller's clock disappear, recorded as one Delete each; after quiescence no purged task exists on any replica or in the chain replay. Non-trivial: at least one task was purged; distinct = distinct trace hash.",
+            gen: gen_c20,
+            run,
+            shrink,
+            real: REAL_A,
+            stub: STUB_A,
+            assumptions: &["scenarios never re-create a task after the initial creation (a later Create would legitimately bring a purged id back)"],
+        },
         CheckDef {
             id: "C12",
             level: "exploration",
